@@ -34,9 +34,15 @@ chk.extra['rule'] = ('systems of 1-3 molecules with 1-2 chains each (shared inpu
                      'rounding ties at 8 decimals) go through the two writers and through write_gmx_topology with varying '
                      'itp_paths (non-trivial: >= 2 blocks / both files); generated all_contacts lists go through '
                      '_write_contacts and the written file through read_go_map (non-trivial: >= 1 selected contact); '
-                     'distinct = distinct protocol line')
+                     'every main case is compared with the model of the WHOLE state (complete interaction table and both '
+                     'parameter tables after the run); 40% of them carry interactions before the pipeline runs (virtual_sitesn '
+                     'built from backbone / side-chain beads, other virtual-site and bonded sections, exclusions between backbone '
+                     'beads incl. the pair a Go contact excludes, empty sections), parameter tables with entries, real particles '
+                     'named like the Go sites, mass/charge attributes, and boundary values (resid <= 0, chain None, _old_resid '
+                     'None/0, molecule without backbone bead, cut-offs equal/zero/negative, res_dist 0), counted as pre:* / '
+                     'boundary:*; distinct = distinct protocol line')
 chk.lean(['VermouthProps.C18', 'VermouthProps.C18_Reuse', 'VermouthProps.C18_Files', 'VermouthProps.C18_MapWrite',
-          'VermouthProps.C18_Sigma', 'VermouthProps.C18_Order'], 'driver_c18')
+          'VermouthProps.C18_Sigma', 'VermouthProps.C18_Order', 'VermouthProps.C18_Inter'], 'driver_c18')
 
 import numpy as np
 import networkx as nx
@@ -63,6 +69,10 @@ chk.trusted.append('harness/c18.py: system builder, canonicaliser of nodes/inter
 chk.trusted.append('harness/c18.py (extension): fractions.Fraction(x) as the exact value of a Python number; the independent '
                    'parameter-file parser and its block/group bookkeeping; scipy euclidean(...)*10 re-evaluated for the distance '
                    'column of the written contact map; str() of mass/charge')
+chk.trusted.append('harness/c18.py (follow-up): rendering of (parameters, meta) of an interaction as one string; identity (`is`) '
+                   'of the entries that existed before; residue member orders taken from the sets of the real collect_residues '
+                   '(spot-checked against make_residue_graph); lean/Drivers/C18.lean applies chainTag / oldSentinel to chain '
+                   'and _old_resid values that are None')
 KNOWN_IDS = {k['id'] for k in chk.known if k.get('status') == 'known'}
 FIXED_IDS = {k['id'] for k in chk.known if k.get('status') == 'fixed'}
 
@@ -90,8 +100,36 @@ def build_system(spec):
             mol.add_node(key, **a)
         for a, b in m['edges']:
             mol.add_edge(a, b)
+        # interactions the molecule carries BEFORE the Go pipeline runs (sections in this order; a section may be empty)
+        for name, items in m.get('interactions', []):
+            mol.interactions[name]
+            for atoms_, params_, meta_ in items:
+                mol.add_interaction(name, atoms_, list(params_), dict(meta_))
         system.add_molecule(mol)
+    # entries the parameter tables of the system hold already (None: key absent, 0: key present and empty)
+    pre_sys = spec.get('sys') or {}
+    holder = vermouth.molecule.Molecule(force_field=ff, nrexcl=1)
+    holder.add_node(0, atomname='W', atype='W', resname='W', resid=1, chain='', mass=72.0, charge=0.0)
+    if pre_sys.get('atomtypes') is not None:
+        system.gmx_topology_params['atomtypes']
+        for i in range(pre_sys['atomtypes']):
+            system.gmx_topology_params['atomtypes'].append(Atomtype(molecule=holder, node=0, sigma=0.47 + i, epsilon=3.5,
+                                                                    meta={}))
+    if pre_sys.get('nonbond_params') is not None:
+        system.gmx_topology_params['nonbond_params']
+        for i in range(pre_sys['nonbond_params']):
+            system.gmx_topology_params['nonbond_params'].append(
+                NonbondParam(atoms=('W', 'P%d' % (i + 1)), sigma=0.47, epsilon=4.0 + i, meta={'comment': ['water bias']}))
     return system
+
+
+def itag(it):
+    """parameters and meta of an interaction as one opaque string (the model's vsTag / exclTag are written like this)"""
+    return repr(list(it.parameters)) + '|' + json.dumps(it.meta, sort_keys=True, default=repr)
+
+
+def dump_table(mol):
+    return [[name, [[list(it.atoms), itag(it)] for it in its]] for name, its in mol.interactions.items()]
 
 
 def dump_atoms(mol):
@@ -100,7 +138,7 @@ def dump_atoms(mol):
         pos = a['position']
         ip = [int(round(float(c))) for c in pos]
         assert all(float(i) == float(c) for i, c in zip(ip, pos))
-        out.append([k, a['atomname'], a['resid'], a['_old_resid'], a['resname'], a['chain'], a['atype'],
+        out.append([k, a['atomname'], a['resid'], a.get('_old_resid'), a['resname'], a['chain'], a['atype'],
                     a.get('charge_group'), ip[0], ip[1], ip[2], a.get('cgsecstruct')])
     return out
 
@@ -192,6 +230,11 @@ def run_real(spec, runner=None, via_file=False):
     pre_edges = [[a, b] for a, b in mol.edges]
     pre_excl = len(mol.interactions.get('exclusions', []))
     pre_vsn = len(mol.interactions.get('virtual_sitesn', []))
+    pre_inter = [(name, list(its)) for name, its in mol.interactions.items()]
+    pre_table = dump_table(mol)
+    gtp = system.gmx_topology_params
+    pre_at = list(gtp['atomtypes']) if 'atomtypes' in gtp else None
+    pre_nb = list(gtp['nonbond_params']) if 'nonbond_params' in gtp else None
     atoms = dump_atoms(mol)
     contacts = [tuple(c) for c in spec['contacts']]
     file_err = None
@@ -224,11 +267,52 @@ def run_real(spec, runner=None, via_file=False):
     except (ValueError, TypeError, IndexError, AttributeError) as exc:
         status = 'raised-' + type(exc).__name__
     mol = system.molecules[0]
-    nb = system.gmx_topology_params['nonbond_params']
+    at_present, nb_present = 'atomtypes' in gtp, 'nonbond_params' in gtp       # before anything below touches the keys
+    at_all = list(gtp['atomtypes']) if at_present else []
+    nb_all = list(gtp['nonbond_params']) if nb_present else []
+    nb = nb_all[len(pre_nb or []):]
     impl, new, vsn, excl = canon(mol, pre, pre_vsn, pre_excl, nb, status)
     obs = dict(system=system, mol=mol, pre=pre, new=new, vsn=vsn, excl=excl, nb=nb, status=status,
-               low=low, up=up, contacts=contacts, pre_edges=pre_edges, atoms=atoms, file_err=file_err)
+               low=low, up=up, contacts=contacts, pre_edges=pre_edges, atoms=atoms, file_err=file_err,
+               pre_inter=pre_inter, pre_table=pre_table, pre_at=pre_at, pre_nb=pre_nb, at_all=at_all, nb_all=nb_all,
+               at_new=at_all[len(pre_at or []):], at_present=at_present, nb_present=nb_present)
+    # the whole state after the run, for the model that threads the whole state (op `gox`)
+    obs['implx'] = canon_x(impl, obs)
+    obs['x_args'] = (par['prefix'], par['backbone'], par['vsname'], atoms, pre_edges, [list(c) for c in contacts],
+                     low.numerator, low.denominator, up.numerator, up.denominator, par['sep'])
     return ln, impl, obs
+
+
+def canon_x(impl, obs):
+    """canonical string of the WHOLE state after the run: created sites, the complete interaction table, the two
+    parameter tables (entries that were there before: 'pre<i>' when they are still the same objects)"""
+    mol = obs['mol']
+
+    def entries(all_, pre_, present, render):
+        if not present:
+            return None
+        out = []
+        for i, t in enumerate(all_):
+            out.append(('pre%d' % i) if i < len(pre_ or []) and t is pre_[i] else render(t))
+        return out
+
+    def render_at(t):
+        if t.molecule is mol and t.sigma == 0 and t.epsilon == 0 and t.meta == {}:
+            return t.node
+        return 'other:%r' % ((t.node, t.sigma, t.epsilon, t.meta),)
+
+    conv = 2 ** (1 / 6)
+
+    def render_nb(p):
+        d2f = (p.sigma * conv) ** 2
+        n = int(round(d2f))
+        return [p.atoms[0], p.atoms[1], n if abs(d2f - n) < 1e-6 else 'f%r' % d2f]
+    at = entries(obs['at_all'], obs['pre_at'], obs['at_present'], render_at)
+    nbx = entries(obs['nb_all'], obs['pre_nb'], obs['nb_present'], render_nb)
+    status = obs['status']
+    if status == 'ok':
+        status = 'ok ' + enc([render_nb(p) for p in obs['nb']])
+    return '%s tab %s at %s nb %s go %s' % (impl[:impl.index(' inter ')], enc(dump_table(mol)), enc(at), enc(nbx), status)
 
 
 # ----------------------------------------------------------------------------
@@ -297,10 +381,24 @@ def oracle(spec, obs):
         bb_resids = [pre_attr[b]['resid'] for b in bbs]
         if len(set(bb_resids)) < len(bb_resids):
             finding = 'F-C18-1'
-    at = obs['system'].gmx_topology_params['atomtypes']
+    at = obs['at_new']
     if [t.node for t in at] != [k for k, _ in new] or any(t.sigma != 0 or t.epsilon != 0 or t.molecule is not mol
                                                          for t in at):
         errs.append('atomtypes entries do not list the virtual sites with zero sigma/epsilon')
+    # --- what was there before is still there, in place ----------------------------------
+    for label, before, after in (('atomtypes', obs['pre_at'], obs['at_all']), ('nonbond_params', obs['pre_nb'], obs['nb_all'])):
+        if before is not None and (len(after) < len(before) or any(x is not y for x, y in zip(before, after))):
+            errs.append('entries of the %s table that existed before the Go pipeline were changed or removed' % label)
+    post_inter = dict(mol.interactions.items())
+    if [n for n, _ in obs['pre_inter']] != list(post_inter)[:len(obs['pre_inter'])] or \
+            set(list(post_inter)[len(obs['pre_inter']):]) - {'virtual_sitesn', 'exclusions'}:
+        errs.append('interaction sections %r became %r' % ([n for n, _ in obs['pre_inter']], list(post_inter)))
+    for name, before in obs['pre_inter']:
+        after = post_inter.get(name, [])
+        if len(after) < len(before) or any(x is not y for x, y in zip(before, after)):
+            errs.append('existing %s interactions were changed, moved or removed' % name)
+        elif name not in ('virtual_sitesn', 'exclusions') and len(after) != len(before):
+            errs.append('%d %s interactions were added by the Go pipeline' % (len(after) - len(before), name))
     # --- Go pairs ---------------------------------------------------------------
     contacts = obs['contacts']
     if obs['status'] != 'ok':
@@ -325,9 +423,15 @@ def oracle(spec, obs):
         flags.add('negative-separation')
         return errs, finding, flags
     # residues of the (pre) molecule, identified independently
-    by_key = {}
+    by_key, olds = {}, {}
     for k, a in pre:
-        by_key.setdefault((a['chain'], a['_old_resid']), set()).add(res_of[k])
+        by_key.setdefault((a['chain'], a.get('_old_resid')), set()).add(res_of[k])
+        olds.setdefault(res_of[k], set()).add(a.get('_old_resid', 'missing'))
+    if any(len(v) > 1 for v in olds.values()):
+        # beads of one residue disagree on the input residue number (API-level input; the mapping gives every bead
+        # of a residue the same one): which residue a contact line names is not defined by the property
+        flags.add('residue-with-inconsistent-input-resid')
+        return errs, finding, flags
     RG = nx.Graph()
     RG.add_nodes_from(set(res_of.values()))
     for a, b in obs['pre_edges']:
@@ -397,17 +501,21 @@ def oracle(spec, obs):
     for pair in expected:
         if got.get(pair, 0) != 1:
             errs.append('residues %s: %d Go potentials, contact is symmetric, separated and inside the window'
-                        % (sorted(pair), got.get(pair, 0)))
+                        % (sorted(pair, key=repr), got.get(pair, 0)))
             if clash:
                 finding = finding or 'F-C18-2'
     for pair in got:
         if pair not in expected:
             errs.append('residues %s: Go potential although the contact is not symmetric/separated/inside the window'
-                        % (sorted(pair),))
+                        % (sorted(pair, key=repr),))
+    # "the two backbone particles are excluded from each other": an exclusion the molecule carried before counts; the
+    # pipeline adds exclusions for Go pairs only, at most one per pair
     want_excl = sorted(sorted(v[0]) for v in expected.values())
     got_excl = sorted(sorted(it.atoms) for it in obs['excl'])
-    if want_excl != got_excl:
-        errs.append('exclusions %r, expected backbone pairs %r' % (got_excl, want_excl))
+    had_excl = [sorted(it.atoms) for name, its in obs['pre_inter'] if name == 'exclusions' for it in its]
+    if any(p_ not in want_excl for p_ in got_excl) or any(got_excl.count(p_) > 1 for p_ in want_excl) or \
+            any(p_ not in got_excl and p_ not in had_excl for p_ in want_excl):
+        errs.append('exclusions added %r (before: %r), expected backbone pairs %r' % (got_excl, had_excl, want_excl))
     return errs, finding, flags
 
 
@@ -438,29 +546,31 @@ def go_files(ln, spec, obs):
     return fl, impl, nb_text, at_text, errs
 
 
+def residue_member_orders(mol):
+    """the node keys of every residue in the order its sub-graph is iterated.  make_residue_graph hands the SET of
+    member keys built by collect_residues to Molecule.subgraph, which copies the nodes in the iteration order of that
+    set; the same real function builds the same sets here (set layout is a function of the insertion history), the
+    sub-graphs themselves are not built (that is two thirds of the cost of make_residue_graph)."""
+    from vermouth.graph_utils import collect_residues
+    return [list(members) for members in collect_residues(mol).values()]
+
+
 def residue_orders(obs):
-    """the node keys of every residue whose sub-graph view networkx does not iterate in node order"""
+    """the node keys of every residue whose sub-graph networkx does not iterate in node order"""
     mol = obs['mol']
-    rg = make_residue_graph(mol)
     pos = {k: i for i, k in enumerate(mol.nodes)}
-    out = []
-    for r in rg.nodes:
-        sub = list(rg.nodes[r]['graph'].nodes)
-        if sub != sorted(sub, key=pos.get):
-            out.append(sub)
-    return out
+    return [sub for sub in obs['member_orders'] if sub != sorted(sub, key=pos.get)]
 
 
 def order_sensitive(spec, obs):
-    """True if the result depends on the iteration order of a residue sub-graph view that is
-    not node order (networkx iterates the *set* of residue members when the residue is small
-    compared with the molecule).  Such cases are excluded from the model comparison."""
+    """True if the result depends on the iteration order of a residue sub-graph that is not node order (the members
+    of a residue are iterated in CPython set order).  Such cases are compared with the model given the order."""
     par = spec['params']
     mol = obs['mol']
-    rg = make_residue_graph(mol)
+    if 'member_orders' not in obs:
+        obs['member_orders'] = residue_member_orders(mol)
     pos = {k: i for i, k in enumerate(mol.nodes)}
-    for r in rg.nodes:
-        sub = list(rg.nodes[r]['graph'].nodes)
+    for sub in obs['member_orders']:
         if sub == sorted(sub, key=pos.get):
             continue
         nbb = sum(1 for n in sub if mol.nodes[n].get('atomname') == par['backbone'])
@@ -993,10 +1103,77 @@ def run_map(text):
 # ----------------------------------------------------------------------------
 # generator
 # ----------------------------------------------------------------------------
-def gen_spec(rng, want=None, chain_ids=None):
-    """want: None | 'resid-clash' | 'prefix-clash' | 'dup-key' | 'repeat' | 'no-bb'"""
+SECTIONS = ['bonds', 'angles', 'constraints', 'dihedrals', 'virtual_sites2', 'virtual_sites3', 'virtual_sitesn', 'exclusions',
+            'pairs', 'position_restraints']
+GO_EXCL_META = {'group': 'Go model exclusion'}
+
+
+def gen_interactions(rng, atoms, dummies):
+    """interactions a molecule carries before the Go pipeline runs: [[section, [[atoms, parameters, meta]...]]...]
+    (sections in insertion order; `dummies` = keys of real particles that are constructed sites of the input)"""
+    bbs = [k for k, a in atoms if a['atomname'] == 'BB']
+    scs = [k for k, a in atoms if a['atomname'].startswith('SC')]
+    allk = [k for k, _ in atoms]
+    res_of = {k: (a['chain'], a['resid']) for k, a in atoms}
+    table = {}
+
+    def add(name, atoms_, params, meta):
+        table.setdefault(name, []).append([list(atoms_), list(params), dict(meta)])
+    for d in dummies:
+        # a constructed site of the input (dummy / charge site of a custom residue), built from the backbone bead of its
+        # residue, from side-chain beads, or from both; sometimes from beads of other residues too
+        mine_bb = [k for k in bbs if res_of[k] == res_of[d]]
+        mine_sc = [k for k in scs if res_of[k] == res_of[d]]
+        k_ = rng.random()
+        if k_ < 0.45 and mine_bb:
+            frm = [mine_bb[0]]
+        elif k_ < 0.75 and mine_bb and mine_sc:
+            frm = [mine_bb[0]] + mine_sc[:rng.choice([1, 2])]
+            if rng.random() < 0.3:
+                frm.reverse()
+        elif mine_sc:
+            frm = mine_sc[:]
+        else:
+            frm = rng.sample(allk, min(len(allk), 2))
+        if rng.random() < 0.2 and len(bbs) >= 2:
+            frm = frm + [rng.choice(bbs)]
+        frm = [k for i, k in enumerate(frm) if k != d and k not in frm[:i]]
+        if frm:
+            add('virtual_sitesn', [d] + frm, rng.choice([['1'], ['1'], ['2'], ['3', '0.5']]),
+                rng.choice([{}, {}, {'comment': 'dummy site'}, {'go_vs': True, 'group': 'Virtual go site'}]))
+    for _ in range(rng.choice([0, 1, 1, 2, 4])):
+        name = rng.choice(SECTIONS)
+        n = {'bonds': 2, 'constraints': 2, 'pairs': 2, 'exclusions': 2, 'angles': 3, 'dihedrals': 4, 'virtual_sites2': 3,
+             'virtual_sites3': 4, 'position_restraints': 1}.get(name, rng.choice([2, 3]))
+        if name == 'virtual_sitesn' and bbs and scs:
+            if rng.random() < 0.7:
+                # an existing bead declared a site constructed from a backbone bead
+                add(name, [rng.choice(scs), rng.choice(bbs)], ['1'], {})
+            else:
+                # a backbone bead that is itself a constructed site
+                add(name, [rng.choice(bbs)] + rng.sample(scs, min(len(scs), 2)), ['1'], {})
+            continue
+        pool = bbs if (name == 'exclusions' and len(bbs) >= 2 and rng.random() < 0.8) else allk
+        if len(pool) < n:
+            continue
+        add(name, rng.sample(pool, n), {'exclusions': []}.get(name, rng.choice([['1', '0.35', '1250'], ['1'], []])),
+            rng.choice([{}, {}, {'group': 'Backbone bonds'}, dict(GO_EXCL_META), {'ifdef': 'FLEXIBLE'}]))
+    if rng.random() < 0.15:
+        table.setdefault(rng.choice(['exclusions', 'virtual_sitesn', 'bonds']), [])          # a section that exists and is empty
+    items = list(table.items())
+    rng.shuffle(items)
+    return [[name, its] for name, its in items]
+
+
+def gen_spec(rng, want=None, chain_ids=None, extras=False):
+    """want: None | 'resid-clash' | 'prefix-clash' | 'dup-key' | 'repeat' | 'no-bb'
+    extras: molecules that already carry interactions, a system whose parameter tables already hold entries, real
+    particles named like the Go sites, mass/charge attributes, and the legal falsy / boundary values (resid <= 0,
+    chain None, _old_resid None, a molecule without backbone bead, cut-offs that are equal / zero / negative)"""
     nmol = rng.choice([1, 1, 2, 2, 3])
-    chain_ids = chain_ids or rng.sample(['A', 'B', 'C', 'D', 'E', 'F', ''], 6)
+    chain_ids = chain_ids or rng.sample(['A', 'B', 'C', 'D', 'E', 'F', ''] + ([None, None] if extras else []), 6)
+    vsname = rng.choice(['CA', 'CA', 'VS', 'GO'])
+    with_inter = extras and rng.random() < 0.8
     molecules = []
     residues = []        # (chain, old_resid, mol index)
     pos = (rng.randint(0, 3), rng.randint(0, 3), rng.randint(0, 3))
@@ -1007,9 +1184,14 @@ def gen_spec(rng, want=None, chain_ids=None):
         keymode = rng.choice(['one', 'zero', 'sparse', 'sparse']) if mi == 0 else rng.choice(['one', 'zero', 'sparse'])
         key = {'one': 1, 'zero': 0, 'sparse': rng.randint(0, 9)}[keymode]
         resid = rng.choice([1, 1, 1, 3])
+        if extras and mi == 0 and rng.random() < 0.3:
+            resid = rng.choice([0, 0, -1, -4])           # legal residue numbers (later molecules are offset by the merge)
         with_cg = rng.choice([True, True, False])
         cg = rng.randint(1, 3)
         sc_beads = []
+        dummies = []
+        nobb_mol = extras and nmol >= 2 and rng.random() < 0.08     # a ligand / ion molecule among the chains
+        with_mass = extras and rng.random() < 0.5
         for _ in range(nchains):
             chain = chain_ids[ci % len(chain_ids)]
             ci += 1
@@ -1024,16 +1206,33 @@ def gen_spec(rng, want=None, chain_ids=None):
                 pos = (pos[0] + step[0], pos[1] + step[1], pos[2] + step[2])
                 nsc = rng.choice([0, 1, 1, 2])
                 names = ['BB'] + ['SC%d' % (i + 1) for i in range(nsc)]
-                if want == 'no-bb' and rng.random() < 0.3:
+                if (want == 'no-bb' and rng.random() < 0.3) or nobb_mol:
                     names = ['ION']
                 elif want == 'two-bb' and rng.random() < 0.3:
                     names = ['BB', 'BB']
+                if with_inter and rng.random() < 0.3:
+                    # a real particle that is a constructed site of the INPUT, sometimes named like the Go sites
+                    names = names + [rng.choice(['D1', 'D1', vsname, vsname, 'BBd'])]
                 ss = rng.choice([None, 'H', 'E', 'C'])
                 prev = None
-                for an in names:
-                    attrs = {'atomname': an, 'resid': resid, '_old_resid': old, 'resname': resname, 'chain': chain,
+                old_here = old
+                if extras and rng.random() < 0.03:
+                    old_here = None                  # what do_mapping stores when no constructing atom had a resid
+                for ni, an in enumerate(names):
+                    attrs = {'atomname': an, 'resid': resid, '_old_resid': old_here, 'resname': resname, 'chain': chain,
                              'atype': rng.choice(BB_TYPES if an == 'BB' else SC_TYPES),
                              'position': list(pos) if an == 'BB' else [pos[0], pos[1] + (1 if an == 'SC1' else 2), pos[2]]}
+                    if ni >= 1 and not an.startswith('SC') and an != 'BB':
+                        dummies.append(key)
+                        attrs['atype'] = rng.choice(['D', 'TC4', 'U'])
+                        if rng.random() < 0.7:
+                            attrs['mass'] = 0.0
+                    elif with_mass and rng.random() < 0.8:
+                        attrs['mass'] = rng.choice([72.0, 54.0, 36.0, 72])
+                        if rng.random() < 0.8:
+                            attrs['charge'] = rng.choice([0.0, 0, 1.0, -1.0, 0.5])
+                    if extras and an != 'BB' and rng.random() < 0.01:
+                        del attrs['_old_resid']      # only backbone beads are read with atom['_old_resid']
                     if with_cg or (rng.random() < 0.1):
                         attrs['charge_group'] = cg
                         cg += rng.choice([1, 1, 2])
@@ -1051,7 +1250,8 @@ def gen_spec(rng, want=None, chain_ids=None):
                         prev_bb = key
                     prev = key
                     key += 1 if keymode != 'sparse' else rng.choice([1, 1, 2, 4])
-                residues.append((chain, old, mi))
+                if old_here is not None and not (nobb_mol and rng.random() < 0.7):
+                    residues.append((chain, old, mi))
                 old += rng.choice([1, 1, 1, 1, 2, 5])
                 if want == 'resid-clash' and rng.random() < 0.4:
                     resid -= rng.choice([0, 1])
@@ -1064,12 +1264,15 @@ def gen_spec(rng, want=None, chain_ids=None):
             if len(cand) >= 2:
                 a, b = rng.sample(cand, 2)
                 edges.append([a, b])
+        inter = gen_interactions(rng, atoms, dummies) if with_inter else []
         if mi == 0 and rng.random() < 0.15:
             # node order != key order in the first molecule (later ones are renumbered by the merge)
             rng.shuffle(atoms)
-        molecules.append({'atoms': atoms, 'edges': edges})
+        molecules.append({'atoms': atoms, 'edges': edges, 'interactions': inter})
     # ---- contacts ----------------------------------------------------------------
-    uniq = sorted(set((c, r) for c, r, _ in residues))
+    uniq = sorted(set((c, r) for c, r, _ in residues), key=lambda t: (t[0] is None, t[0] or '', t[1]))
+    if not uniq:
+        uniq = [('A', 1)]
     contacts = []
     npairs = rng.choice([0, 1, 2, 3, 4, 6, 8, 12, 16])
     pairs = set()
@@ -1095,6 +1298,26 @@ def gen_spec(rng, want=None, chain_ids=None):
         else:
             contacts.append(bw)
     rng.shuffle(contacts)
+    if with_inter:
+        # exclusions that exist already between exactly the backbone beads a Go contact will exclude (either orientation)
+        for m in molecules:
+            bb_here = {}
+            for k_, a in m['atoms']:
+                if a['atomname'] == 'BB':
+                    bb_here.setdefault((a['chain'], a.get('_old_resid')), k_)
+            extra = []
+            for ra, ca, rb, cb in contacts:
+                if (ca, ra) in bb_here and (cb, rb) in bb_here and bb_here[(ca, ra)] != bb_here[(cb, rb)] \
+                        and rng.random() < 0.25:
+                    extra.append([[bb_here[(ca, ra)], bb_here[(cb, rb)]], [],
+                                  rng.choice([dict(GO_EXCL_META), dict(GO_EXCL_META), {}])])
+            if extra:
+                for sec in m['interactions']:
+                    if sec[0] == 'exclusions':
+                        sec[1].extend(extra)
+                        break
+                else:
+                    m['interactions'].insert(rng.randint(0, len(m['interactions'])), ['exclusions', extra])
     if want == 'repeat' and contacts:
         for _ in range(rng.randint(1, 3)):
             contacts.insert(rng.randint(0, len(contacts)), rng.choice(contacts))
@@ -1103,7 +1326,7 @@ def gen_spec(rng, want=None, chain_ids=None):
     for m in molecules:
         for _, a in m['atoms']:
             if a['atomname'] == 'BB':
-                bbpos.setdefault((a['chain'], a['_old_resid']), a['position'])
+                bbpos.setdefault((a['chain'], a.get('_old_resid')), a['position'])
     d2s = []
     for ra, ca, rb, cb in contacts:
         if (ca, ra) in bbpos and (cb, rb) in bbpos:
@@ -1126,13 +1349,31 @@ def gen_spec(rng, want=None, chain_ids=None):
     low, up = cut('low'), cut('up')
     if rng.random() < 0.6 and Fraction(*low) >= Fraction(*up):
         low = rng.choice([[0, 1], [1, 2], [1, 1]])
+    if extras:
+        # boundary values of the window: a negative lower cut-off means "no lower bound", a zero or negative upper
+        # cut-off admits nothing, equal cut-offs admit nothing
+        k = rng.random()
+        if k < 0.06:
+            low = rng.choice([[-1, 1], [-3, 2], [-6, 1], [0, 1]])
+        elif k < 0.10:
+            up = rng.choice([[0, 1], [-1, 1], [-5, 4], [-12, 1]])
+        elif k < 0.13:
+            low = list(up)
+        elif k < 0.15:
+            low, up = rng.choice([[[-2, 1], [-1, 1]], [[-1, 1], [-2, 1]], [[-9, 1], [0, 1]]])
     prefix = rng.choice(SAFE_PREFIX)
     if want == 'prefix-clash':
         prefix = rng.choice(CLASH_PREFIX)
-    params = {'prefix': prefix, 'backbone': 'BB', 'vsname': rng.choice(['CA', 'CA', 'VS', 'GO']),
+    sys_pre = None
+    if extras and rng.random() < 0.3:
+        sys_pre = {'atomtypes': rng.choice([None, 0, 1, 3]), 'nonbond_params': rng.choice([None, 0, 1, 2])}
+    params = {'prefix': prefix, 'backbone': 'BB', 'vsname': vsname,
               'low': low, 'up': up, 'sep': rng.choice([0, 0, 1, 1, 2, 2, 3, 4]) if rng.random() < 0.97 else -1,
               'eps': rng.choice([9.414, 12.0, 2.1, 0.5, 0.5, 0, 0.0, -1.5])}  # 0 and 0.0 are legal (falsy) depths
-    return {'molecules': molecules, 'contacts': [list(c) for c in contacts], 'params': params}
+    spec = {'molecules': molecules, 'contacts': [list(c) for c in contacts], 'params': params}
+    if sys_pre:
+        spec['sys'] = sys_pre
+    return spec
 
 
 # ----------------------------------------------------------------------------
@@ -1167,7 +1408,7 @@ for i in range(N):
         want = 'prefix-clash' if 'F-C18-2' in KNOWN_IDS else None
         if want is None:
             chk.count('stream_prefix_clash_disabled(no F-C18-2 entry)')
-    specs.append(('go-%d' % i, gen_spec(rng, want)))
+    specs.append(('go-%d' % i, gen_spec(rng, want, extras=rng.random() < 0.4)))
 
 def file_route_ok(sp):
     return bool(sp['contacts']) and all(isinstance(c[1], str) and isinstance(c[3], str) and c[1].strip() == c[1] != ''
@@ -1182,14 +1423,25 @@ for n_, (cid, sp) in enumerate(specs):
         chk.count('contact_list_read_by_read_go_map')
     ln, impl, obs = run_real(sp, via_file=via_file)
     obs['order_sensitive'] = order_sensitive(sp, obs)
-    if obs['order_sensitive']:
-        # the result depends on the set order in which networkx iterates a residue with two backbone beads / two
-        # prefix-matching types: the observed order is handed to the model (lean/VermouthModel/C18_Order.lean)
-        ln = line('goord') + ln[len(enc('go')):] + ' ' + enc(residue_orders(obs))
+    if n_ % 25 == 0:
+        # the short cut of residue_member_orders against the sub-graphs make_residue_graph really builds
+        rg_ = make_residue_graph(obs['mol'])
+        same_ = sorted(tuple(rg_.nodes[r]['graph'].nodes) for r in rg_.nodes) == sorted(tuple(m) for m in obs['member_orders'])
+        chk.count('member_orders_checked_against_make_residue_graph' if same_ else 'HARNESS-ERROR:member_orders_differ')
+        assert same_, 'residue_member_orders differs from make_residue_graph'
+    # the result may depend on the set order in which networkx iterates a residue with two backbone beads / two
+    # prefix-matching types: the observed order is handed to the model (lean/VermouthModel/C18_Order.lean)
+    orders = residue_orders(obs) if obs['order_sensitive'] else []
     obs['writer_errs'] = obs['files'] = None
-    if n_ % 3 == 1 and obs['status'] == 'ok' and not obs['order_sensitive']:
+    plain = all(a[3] is not None and a[5] is not None for a in obs['atoms']) and not obs['pre_at'] and not obs['pre_nb'] \
+        and all(c[1] is not None and c[3] is not None for c in obs['contacts'])
+    if n_ % 3 == 1 and obs['status'] == 'ok' and not obs['order_sensitive'] and plain:
         obs['files'] = go_files(ln, sp, obs)
         obs['writer_errs'] = writer_oracle(obs, obs['files'][2], obs['files'][3])
+    # every case goes to the model that threads the WHOLE state (interaction table, parameter tables): op `gox`
+    ln = line('gox', *obs['x_args'], orders, obs['pre_table'],
+              None if obs['pre_at'] is None else len(obs['pre_at']), None if obs['pre_nb'] is None else len(obs['pre_nb']))
+    impl = obs['implx']
     lines.append(ln)
     impls.append(impl)
     meta.append((cid, sp, obs))
@@ -1198,7 +1450,7 @@ for ln, impl, mo, (cid, sp, obs) in zip(lines, impls, models, meta):
     errs, finding, flags = oracle(sp, obs)
     contacts = obs['contacts']
     listed = set(contacts)
-    keys = {(a['chain'], a['_old_resid']) for _, a in obs['pre']}
+    keys = {(a['chain'], a.get('_old_resid')) for _, a in obs['pre']}
     present = [c for c in contacts if (c[1], c[0]) in keys and (c[3], c[2]) in keys and (c[0], c[1]) != (c[2], c[3])]
     n_sym = sum(1 for c in present if (c[2], c[3], c[0], c[1]) in listed)
     n_one = sum(1 for c in present if (c[2], c[3], c[0], c[1]) not in listed)
@@ -1206,6 +1458,73 @@ for ln, impl, mo, (cid, sp, obs) in zip(lines, impls, models, meta):
     if obs['order_sensitive']:
         chk.count('compared_with_model_given_observed_subgraph_order')
     chk.count('status_' + obs['status'])
+    # ---- what the molecule / the system carried before the pipeline ran, and the boundary values present ----
+    par_ = sp['params']
+    bb_keys = {a[0] for a in obs['atoms'] if a[1] == par_['backbone']}
+    for name, items in obs['pre_table']:
+        if not items:
+            chk.count('pre:section_present_and_empty')
+        for atoms_, tag_ in items:
+            if name == 'virtual_sitesn':
+                frm = set(atoms_[1:])
+                chk.count('pre:virtual_sitesn_built_from_' + ('backbone_bead' if frm and frm <= bb_keys else
+                                                            'side_chain_beads' if not frm & bb_keys else 'backbone_and_side_chain'))
+            elif name.startswith('virtual_sites'):
+                chk.count('pre:other_virtual_site_section')
+            elif name == 'exclusions':
+                if set(atoms_) <= bb_keys:
+                    chk.count('pre:exclusion_between_backbone_beads')
+                if any(sorted(it.atoms) == sorted(atoms_) for it in obs['excl']):
+                    chk.count('pre:exclusion_of_a_pair_the_go_model_excludes_too(written_again)')
+            else:
+                chk.count('pre:bonded_section')
+    if obs['pre_at']:
+        chk.count('pre:atomtypes_table_has_entries')
+    if obs['pre_nb']:
+        chk.count('pre:nonbond_params_table_has_entries')
+    if obs['pre_at'] == [] or obs['pre_nb'] == []:
+        chk.count('pre:parameter_table_present_and_empty')
+    if any(a[1] == par_['vsname'] for a in obs['atoms']):
+        chk.count('pre:real_particle_named_like_the_sites')
+    if any('mass' in a for _, a in obs['pre']):
+        chk.count('pre:beads_with_mass_attribute')
+    if any('mass' not in a for k, a in obs['pre'] if k in bb_keys):
+        chk.count('pre:backbone_bead_without_mass_attribute')
+    seen_ = set()
+    for a in obs['atoms']:
+        if a[2] <= 0:
+            seen_.add('resid<=0')
+        if a[5] is None:
+            seen_.add('chain=None')
+        elif a[5] == '':
+            seen_.add("chain=''")
+        if a[3] is None:
+            seen_.add('_old_resid=None_or_missing')
+        elif a[3] == 0:
+            seen_.add('_old_resid=0')
+        if a[7] is None:
+            seen_.add('bead_without_charge_group')
+    for flag, label in ((all(a[7] is None for a in obs['atoms']), 'no_charge_group_at_all'),
+                        (par_['sep'] == 0, 'res_dist=0'), (obs['low'] == obs['up'], 'cutoffs_equal'),
+                        (obs['low'] < 0, 'cutoff_short<0'), (obs['up'] < 0, 'cutoff_long<0'),
+                        (obs['up'] == 0, 'cutoff_long=0'), (obs['low'] == 0, 'cutoff_short=0'),
+                        (obs['low'] > obs['up'], 'cutoff_short>cutoff_long'), (par_['eps'] == 0, 'go_eps=0'),
+                        (not obs['contacts'], 'empty_contact_list')):
+        if flag:
+            seen_.add(label)
+    named_ = {}
+    for c in obs['contacts']:
+        for x in ((c[1], c[0]), (c[3], c[2])):
+            named_[x] = named_.get(x, 0) + 1
+        if c[0] == c[2] and c[1] == c[3]:
+            seen_.add('contact_of_a_residue_with_itself')
+    if named_ and max(named_.values()) > 2:
+        seen_.add('residue_named_by_several_contacts')
+    for label in sorted(seen_):
+        chk.count('boundary:' + label)
+    if len(sp['molecules']) > 1 and any(not any(a['atomname'] == par_['backbone'] for _, a in m['atoms'])
+                                        for m in sp['molecules']):
+        chk.count('boundary:molecule_without_backbone_bead_among_others')
     chk.count('n_emitted=%d' % min(len(obs['nb']), 4))
     chk.count('n_sites=%s' % ('0' if not obs['new'] else '1-5' if len(obs['new']) <= 5 else '6+'))
     chk.count('n_molecules=%d' % len(sp['molecules']))
@@ -1217,7 +1536,7 @@ for ln, impl, mo, (cid, sp, obs) in zip(lines, impls, models, meta):
         bbp = {}
         for _, a in obs['pre']:
             if a['atomname'] == par['backbone']:
-                bbp.setdefault((a['chain'], a['_old_resid']), a['position'])
+                bbp.setdefault((a['chain'], a.get('_old_resid')), a['position'])
         for c in present:
             d2 = sum(int(round(x - y)) ** 2 for x, y in zip(bbp[(c[1], c[0])], bbp[(c[3], c[2])])) \
                 if (c[1], c[0]) in bbp and (c[3], c[2]) in bbp else None
